@@ -557,6 +557,7 @@ theorem toolDiff_of_logicalEq (cfg : DiffCfg) (a b : LFile) (wa : LWF a) (wb : L
   have g2 : b2n (decide (a.dims.length ≠ b.dims.length)) = 0 := by rw [b2n_eq_zero]; simp [E.ndims]
   have g3 : b2n (decide (a.vars.length ≠ b.vars.length)) = 0 := by rw [b2n_eq_zero]; simp [E.nvars]
   have g4 : b2n (decide (a.gatts.length ≠ b.gatts.length)) = 0 := by rw [b2n_eq_zero]; simp [E.ngatts]
+  have g4' : b2n (cfg.cmpNumrecs && decide (a.numrecs ≠ b.numrecs)) = 0 := by rw [b2n_eq_zero]; simp [E.numrecs]
   have g5 := atts_zero_of_eq cfg a.gatts b.gatts wa.gatts.1 wb.gatts.1 E.gatts
   have g6 := dims_zero_of_eq cfg a b wa.dimNames wb.dimNames E.numrecs E.dims
   have g7 : varsDiff cfg a b = (0, 0) := by
@@ -590,14 +591,15 @@ theorem toolDiff_of_logicalEq (cfg : DiffCfg) (a b : LFile) (wa : LWF a) (wb : L
       have t2 : ¬ v.dims.length ≠ w.dims.length := by simp [e.dims]
       have t3 : ¬ (v.dims.map (fun d => dimLen cfg a.numrecs d.size)) ≠ (w.dims.map (fun d => dimLen cfg b.numrecs d.size)) := by
         simp [e.dims, E.numrecs]
-      rw [if_neg t1, if_neg t2, if_neg t3]
+      have t3' : ¬ (cfg.cmpNumrecs = true ∧ v.isRec = true ∧ a.numrecs ≠ b.numrecs) := fun ⟨_, _, x⟩ => x E.numrecs
+      rw [if_neg t1, if_neg t2, if_neg t3, if_neg t3']
       split
       · rfl
       · rw [b2n_eq_zero]
         have := (recsSame_iff v w (if v.isRec then a.numrecs else 1)).mpr e.data
         simp [this]
   rw [g7]
-  simp only [g1, g2, g3, g4, g5, g6, g8, Nat.add_zero]
+  simp only [g1, g2, g3, g4, g4', g5, g6, g8, Nat.add_zero]
 
 theorem nil_of_length_zero {α : Type} {l : List α} (h : ¬ l.length > 0) : l = [] := by
   cases l with
@@ -608,7 +610,8 @@ theorem nil_of_length_zero {α : Type} {l : List α} (h : ¬ l.length > 0) : l =
     agree (cdfdiff never looks at the second file's), nothing in the first file is of a type the tool skips
     (ncmpidiff: NC_BYTE) and the tool's view of dimension lengths is faithful (`LenAgree`) -/
 theorem logicalEq_of_toolDiff (cfg : DiffCfg) (a b : LFile) (wa : LWF a) (wb : LWF b) (nb : NoByte cfg a)
-    (ag : LenAgree cfg a b) (hn : a.numrecs = b.numrecs) (h : toolDiff cfg a b = .counts 0 0) : LogicalEq a b := by
+    (ag : LenAgree cfg a b) (hn' : cfg.cmpNumrecs = true ∨ a.numrecs = b.numrecs) (h : toolDiff cfg a b = .counts 0 0) :
+    LogicalEq a b := by
   unfold toolDiff at h
   split at h
   · cases h
@@ -618,6 +621,12 @@ theorem logicalEq_of_toolDiff (cfg : DiffCfg) (a b : LFile) (wa : LWF a) (wb : L
     have g2 : b2n (decide (a.dims.length ≠ b.dims.length)) = 0 := by omega
     have g3 : b2n (decide (a.vars.length ≠ b.vars.length)) = 0 := by omega
     have g4 : b2n (decide (a.gatts.length ≠ b.gatts.length)) = 0 := by omega
+    have g4' : b2n (cfg.cmpNumrecs && decide (a.numrecs ≠ b.numrecs)) = 0 := by omega
+    have hn : a.numrecs = b.numrecs := by
+      rcases hn' with hc | hn
+      · rw [b2n_eq_zero, hc] at g4'
+        simpa using g4'
+      · exact hn
     have g5 : attsDiff cfg a.gatts b.gatts = 0 := by omega
     have g6 : dimsDiff cfg a b = 0 := by omega
     have g7 : (varsDiff cfg a b).1 = 0 := by omega
@@ -665,8 +674,9 @@ theorem logicalEq_of_toolDiff (cfg : DiffCfg) (a b : LFile) (wa : LWF a) (wb : L
     have t2 : ¬ v.dims.length ≠ w.dims.length := by simp [me.dims]
     have t3 : ¬ (v.dims.map (fun d => dimLen cfg a.numrecs d.size)) ≠ (w.dims.map (fun d => dimLen cfg b.numrecs d.size)) := by
       simp [me.dims, hn]
+    have t3' : ¬ (cfg.cmpNumrecs = true ∧ v.isRec = true ∧ a.numrecs ≠ b.numrecs) := fun ⟨_, _, x⟩ => x hn
     have t4 : ¬ (cfg.skipByte = true ∧ v.xtype = .byte) := fun ⟨x, y⟩ => (nb.vars v hvm).1 x y
-    rw [if_neg t1, if_neg t2, if_neg t3, if_neg t4, b2n_eq_zero] at t
+    rw [if_neg t1, if_neg t2, if_neg t3, if_neg t3', if_neg t4, b2n_eq_zero] at t
     exact (recsSame_iff v w _).mp (by simpa using t)
 
 theorem same_iff (o : DiffOut) : o.same = true ↔ o = .counts 0 0 := by
